@@ -33,6 +33,7 @@
 #include "DOMNamedNodeMapImpl.hpp"
 #include "DOMDocumentImpl.hpp"
 #include "DOMCasts.hpp"
+#include <xercesc/util/VerifHooks.hpp>
 
 namespace XERCES_CPP_NAMESPACE {
 
@@ -87,6 +88,7 @@ DOMDocumentTypeImpl::DOMDocumentTypeImpl(DOMDocument *ownerDoc,
         fEntities = new (doc) DOMNamedNodeMapImpl(this);
         fNotations= new (doc) DOMNamedNodeMapImpl(this);
         fElements = new (doc) DOMNamedNodeMapImpl(this);
+        VERIF_EVS("Acc", "dt_use", "obj,c,rw,val", 0, 0, 1, 0);
     }
 }
 
@@ -164,6 +166,7 @@ DOMDocumentTypeImpl::DOMDocumentTypeImpl(DOMDocument *ownerDoc,
         fEntities = new (doc) DOMNamedNodeMapImpl(this);
         fNotations= new (doc) DOMNamedNodeMapImpl(this);
         fElements = new (doc) DOMNamedNodeMapImpl(this);
+        VERIF_EVS("Acc", "dt_use", "obj,c,rw,val", 0, 0, 1, 0);
     }
 }
 
@@ -213,6 +216,7 @@ DOMNode *DOMDocumentTypeImpl::cloneNode(bool deep) const
     {
         XMLMutexLock lock(sDocumentMutex);
         newNode = new (sDocument, DOMMemoryManager::DOCUMENT_TYPE_OBJECT) DOMDocumentTypeImpl(*this, false, deep);
+        VERIF_EVS("Acc", "dt_use", "obj,c,rw,val", 0, 0, 1, 0);
     }
 
     fNode.callUserDataHandlers(DOMUserDataHandler::NODE_CLONED, this, newNode);
@@ -343,6 +347,7 @@ void DOMDocumentTypeImpl::setPublicId(const XMLCh *value)
     else {
         XMLMutexLock lock(sDocumentMutex);
         fPublicId = ((DOMDocumentImpl *)sDocument)->cloneString(value);
+        VERIF_EVS("Acc", "dt_use", "obj,c,rw,val", 0, 0, 1, 0);
     }
 }
 
@@ -354,6 +359,7 @@ void DOMDocumentTypeImpl::setSystemId(const XMLCh *value)
     else {
         XMLMutexLock lock(sDocumentMutex);
         fSystemId = ((DOMDocumentImpl *)sDocument)->cloneString(value);
+        VERIF_EVS("Acc", "dt_use", "obj,c,rw,val", 0, 0, 1, 0);
     }
 }
 
@@ -365,6 +371,7 @@ void DOMDocumentTypeImpl::setInternalSubset(const XMLCh *value)
     else {
         XMLMutexLock lock(sDocumentMutex);
         fInternalSubset = ((DOMDocumentImpl *)sDocument)->cloneString(value);
+        VERIF_EVS("Acc", "dt_use", "obj,c,rw,val", 0, 0, 1, 0);
     }
 }
 
